@@ -238,14 +238,19 @@ def _split_alternatives(fn: ast.AST, expr: ast.AST, at: ast.AST, hook: _EvalHook
     mins = [s for s in ast.walk(expr) if isinstance(s, ast.Call) and dotted(s.func) == "min" and len(s.args) == 2]
     if len(mins) == 1:
         out = {}
-        for arg in mins[0].args:
+        for pos, arg in enumerate(mins[0].args):
             pol = Normaliser(hook).poly(arg)
             text = str(pol)
             charged_a = "LT.a" in text or "U.a" in text
             charged_b = "LT.b" in text or "U.b" in text
             if charged_a == charged_b:
-                raise AnalysisError(f"evaluator: cannot name the alternative `{short(arg)}` of a min()")
-            out["T=a" if charged_a else "T=b"] = _replace_node(expr, mins[0], arg)
+                # not recognisable by content: name by position (a mismatch with the model is then reported)
+                name = "T=a" if pos == 0 else "T=b"
+            else:
+                name = "T=a" if charged_a else "T=b"
+            if name in out:
+                name = "T=b" if name == "T=a" else "T=a"
+            out[name] = _replace_node(expr, mins[0], arg)
         return out
     return {"": expr}
 
@@ -281,6 +286,12 @@ MODEL = "model.reconciliation"
 
 
 def evaluator_signature(prog: Program) -> EvalSignature:
+    if "evaluator_signature" not in prog.memo:
+        prog.memo["evaluator_signature"] = _evaluator_signature(prog)
+    return prog.memo["evaluator_signature"]
+
+
+def _evaluator_signature(prog: Program) -> EvalSignature:
     sig = EvalSignature()
     out_cls = prog.cls(MODEL, "ReconciliationOutput")
     sup_cls = prog.cls(MODEL, "SuperReconciliationOutput")
@@ -483,6 +494,12 @@ def _entry_ref(fn: ast.AST, expr: ast.AST, at: ast.AST) -> Tuple:
 
 
 def find_recurrences(prog: Program) -> List[Recurrence]:
+    if "recurrences" not in prog.memo:
+        prog.memo["recurrences"] = _find_recurrences(prog)
+    return prog.memo["recurrences"]
+
+
+def _find_recurrences(prog: Program) -> List[Recurrence]:
     out = []
     for modname in (
         "compute.reconciliation",
